@@ -560,6 +560,9 @@ fn make(tier: &str, seed: u64) -> Vec<Box<dyn Harness>> {
             v.push(Box::new(Inst { n, directed, loops, split_bits, split_val: val }) as Box<dyn Harness>);
         }
     };
+    add(1, false, true, 0);
+    add(2, false, true, 0);
+    add(1, true, true, 0);
     add(2, true, true, 0);
     add(3, true, true, 2);
     add(3, false, true, 0);
